@@ -35,7 +35,9 @@ theorem GB.C12.TransTie.parseInt10_eq (s : Bytes) :
     | none => rfl
     | some un =>
       simp only []
-      split <;> [rfl; (split <;> rfl)]
+      split
+      · rfl
+      · split <;> rfl
 
 theorem GB.C12.TransTie.idx_last (s : Bytes) (u : UInt8) (h : s.getLast? = some u) : idx s (len s - 1) = u := by
   have hne : s ≠ [] := by intro h0; simp [h0] at h
@@ -45,14 +47,16 @@ theorem GB.C12.TransTie.idx_last (s : Bytes) (u : UInt8) (h : s.getLast? = some 
   rw [List.getLast?_eq_getElem?] at h
   simp [idx, len, h1, h2, List.getD_eq_getElem?_getD, h]
 
+theorem GB.C12.TransTie.nondigit (ch : UInt8) : (decide (ch < 48) || decide (ch > 57)) = !GB.C12.isDigit ch := by
+  simp only [GB.C12.isDigit]
+  rw [Bool.eq_iff_iff]
+  simp [UInt8.not_le]
+
 theorem GB.C12.TransTie.any_nondigit (ds : Bytes) :
     ds.any (fun ch => (decide (ch < 48) || decide (ch > 57))) = !ds.all GB.C12.isDigit := by
   rw [List.all_eq_not_any_not, Bool.not_not]
   congr 1; funext ch
-  simp only [GB.C12.isDigit]
-  by_cases a : ch < 48 <;> by_cases b : ch > 57 <;> simp [a, b, UInt8.not_lt, UInt8.not_le] <;>
-    first | exact UInt8.not_le.mp (by simpa using a) | skip
-  all_goals simp_all [UInt8.not_lt, UInt8.not_le, UInt8.lt_iff_toNat_lt, UInt8.le_iff_toNat_le] <;> omega
+  exact nondigit ch
 
 /-- grpcadapter `timeoutUnitToDuration` (the unit table) -/
 theorem C12_trans_timeoutUnitToDuration : ∀ u : UInt8,
@@ -78,13 +82,24 @@ theorem C12_trans_timeoutUnitToDuration : ∀ u : UInt8,
 theorem C12_trans_decodeTimeout : ∀ s : GB.Bytes,
     GB.Generated.Trans.decodeTimeout s = ofOption (GB.C12.decodeTimeout s) := by
   intro s
+  have hlen : len s = (s.length : Int) := rfl
   unfold GB.Generated.Trans.decodeTimeout GB.C12.decodeTimeout
-  by_cases hsz : s.length < 2 ∨ s.length > 9
-  · have : ((len s < 2) ∨ (len s > 9)) := by simp only [len]; omega
-    simp [GB.C12.minSize, GB.C12.maxSize, hsz, this, ofOption]
-  · have hsz' : ¬ ((len s < 2) ∨ (len s > 9)) := by simp only [len]; omega
+  by_cases hsz : (decide (s.length < GB.C12.minSize) || decide (s.length > GB.C12.maxSize)) = true
+  · have hP : s.length < 2 ∨ s.length > 9 := by
+      rcases (Bool.or_eq_true _ _).mp hsz with h | h
+      · exact Or.inl (of_decide_eq_true h)
+      · exact Or.inr (of_decide_eq_true h)
+    have hsz' : (decide (len s < 2) || decide (len s > 9)) = true := by
+      simp only [Bool.or_eq_true, decide_eq_true_eq, hlen]; omega
+    rw [if_pos hsz, if_pos hsz']; rfl
+  · have hP : ¬ (s.length < 2 ∨ s.length > 9) := by
+      intro h; apply hsz; rcases h with h | h
+      · exact (Bool.or_eq_true _ _).mpr (Or.inl (decide_eq_true h))
+      · exact (Bool.or_eq_true _ _).mpr (Or.inr (decide_eq_true h))
+    have hsz' : ¬ (decide (len s < 2) || decide (len s > 9)) = true := by
+      simp only [Bool.or_eq_true, decide_eq_true_eq, hlen]; omega
     have hn : 2 ≤ s.length := by omega
-    simp only [GB.C12.minSize, GB.C12.maxSize, Bool.or_eq_true, decide_eq_true_eq, hsz, hsz', if_false]
+    rw [if_neg hsz, if_neg hsz']
     cases hl : s.getLast? with
     | none =>
       have : s = [] := by simpa using hl
@@ -92,14 +107,14 @@ theorem C12_trans_decodeTimeout : ∀ s : GB.Bytes,
     | some u =>
       simp only [idx_last s u hl, C12_trans_timeoutUnitToDuration]
       cases GB.C12.timeoutUnitToDuration u with
-      | none => simp [ofOption]
+      | none => rfl
       | some d =>
         simp only [ofOption, Bool.not_true, Bool.false_eq_true, if_false]
         have hr : rangeInt 0 (len s - 1) = rangeFrom 0 (s.length - 1) := by
-          simp only [rangeInt, len]; congr 1; omega
+          simp only [rangeInt, hlen]; congr 1; omega
         have hs : slice s 0 (len s - 1) = s.dropLast := by
           have : ((s.length : Int) - 1).toNat = s.length - 1 := by omega
-          simp [slice, len, this, List.dropLast_eq_take]
+          simp [slice, hlen, this, List.dropLast_eq_take]
         rw [hr, hs]
         rw [loop_range_idx_take s (s.length - 1) (by omega) () _
           (fun ch _ => if (decide (ch < 48) || decide (ch > 57)) then Ctl.ret ((0 : Int), false) else Ctl.next ())
@@ -108,14 +123,16 @@ theorem C12_trans_decodeTimeout : ∀ s : GB.Bytes,
         rw [loop_unit_any (ρ := Int × Bool) s.dropLast (fun ch => (decide (ch < 48) || decide (ch > 57))) ((0 : Int), false)]
         rw [any_nondigit]
         cases hd : s.dropLast.all GB.C12.isDigit with
-        | false => simp
+        | false => rfl
         | true =>
           simp only [Bool.not_true, Bool.false_eq_true, if_false, parseInt10_eq]
           cases GB.C12.parseInt10 s.dropLast with
-          | none => simp
+          | none => rfl
           | some t =>
-            simp only [GB.C12.hour, GB.C12.maxHours, GB.C12.maxInt64, Bool.and_eq_true, decide_eq_true_eq, gt_iff_lt]
-            split <;> rfl
+            simp only [GB.C12.hour, GB.C12.maxHours, GB.C12.maxInt64, gt_iff_lt, Bool.false_eq_true, if_false]
+            by_cases hc : (d == 3600000000000 && decide (2562047 < t)) = true
+            · rw [if_pos hc, if_pos hc]
+            · rw [if_neg hc, if_neg hc]
 
 /-- not vacuous: the regenerated definition computes ("10S" = 10 s, "1H" = 1 h) -/
 example : GB.Generated.Trans.decodeTimeout [49, 48, 83] = (10000000000, true) := by decide
